@@ -36,6 +36,9 @@ def worker():
 
     for si, st in enumerate(job["states"]):
         net = pickle.loads(base)
+        # voltage recordings of every compartment exist WHILE the history runs (they are not part of NetSim's state): a
+        # delete_recordings through a node selection then meets recordings of compartments whose index equals a synapse's
+        net.record("v", verbose=False)
         nin = 0
         # C10 on synaptic parameters: the weight edits of a history go through .set, or are all deferred to integrate through
         # data_set / make_trainable (the tables then keep the initial weight 1)
@@ -99,7 +102,8 @@ def worker():
                     res["states"] += 1
                     continue
                 # recordings: v of every compartment first (the harness moves them to the front)
-                recs_user = net.recordings.copy() if len(net.recordings) else None
+                recs_user = net.recordings[net.recordings["state"] != "v"].copy()
+                recs_user = recs_user if len(recs_user) else None
                 net.delete_recordings()
                 net.record("v", verbose=False)
                 if recs_user is not None:
@@ -237,6 +241,9 @@ def main(which):
     if which == "C10":
         # synaptic half of C10: only the weight-edit histories matter (set / data_set / make_trainable routes)
         runs = [("net_b", {"MaxEdges": 2, "MaxEdits": 2, "SAMPLE": 400 if quick else 60})]
+    if which == "C19":
+        # network half of C19: histories with connect and with recordings / trainables that are made and deleted again
+        runs = [("net_b", {"MaxEdges": 2, "MaxEdits": 2, "SAMPLE": 150 if quick else 30})]
     states = trans = 0
     sts = []
     model = None
@@ -266,8 +273,12 @@ def main(which):
         sts = [s for s in sts if any(h["op"] in ("setw", "trainw") for h in s["hist"])]
         if len(sts) < 300:
             raise C.MachineryError("only %d weight-edit histories sampled" % len(sts))
+    if which == "C19":
+        sts = [s for s in sts if any(h["op"] in ("delrec", "deltrain", "record", "clamp") for h in s["hist"])]
+        if len(sts) < 300:
+            raise C.MachineryError("only %d deletion histories sampled" % len(sts))
     ops = Counter(h["op"] for s in sts for h in s["hist"])
-    for need in (("connect", "setw", "trainw", "deltrain") if which == "C10" else ("connect", "setw", "sets", "record", "delrec", "clamp", "stim", "trainw", "deltrain")):
+    for need in (("connect", "setw", "trainw", "deltrain") if which == "C10" else ("connect", "record", "delrec", "trainw", "deltrain", "clamp") if which == "C19" else ("connect", "setw", "sets", "record", "delrec", "clamp", "stim", "trainw", "deltrain")):
         if ops[need] == 0:
             raise C.MachineryError("vacuity: no sampled history contains %s" % need)
     backends = ["jaxley.thomas", "jax.sparse"] if quick else ["jaxley.stone", "jaxley.thomas", "jax.sparse"]
@@ -282,7 +293,7 @@ def main(which):
         routes.update(o.get("routes", {}))
         n += o["states"]
         for m in o["mismatch"]:
-            if m["kind"] not in (c08 if which == "C08" else c09):
+            if which != "C19" and m["kind"] not in (c08 if which == "C08" else c09):
                 continue
             sig = {k: m[k] for k in ("kind", "ntypes", "layout", "route", "global_edge_index_equals_rank_within_type") if k in m}
             if m["kind"] in ("recorded_synaptic_rows", "raised"):
@@ -297,7 +308,7 @@ def main(which):
             chk.violation({"kind": "pre_voltage_dependent_current", "what": bad["what"], "voltage_solver": bad["voltage_solver"]}, bad)
     prev = None
     evp = os.path.join(C.EVID, which + ".json")
-    if which in ("C08", "C10") and os.environ.get("VERIF_MERGE_EVIDENCE") == "1" and os.path.exists(evp):
+    if which in ("C08", "C10", "C19") and os.environ.get("VERIF_MERGE_EVIDENCE") == "1" and os.path.exists(evp):
         prev = json.load(open(evp))
     chk.set("weight_edit_histories_by_route", dict(routes))
     chk.set("states", states + (prev["coverage"].get("states", 0) if prev else 0))
@@ -321,6 +332,12 @@ def main(which):
     if prev and which == "C08":
         chk.set("time_loop_part", {k: prev["coverage"].get(k) for k in ("integrate_calls_compared", "refusals_confirmed", "manual_stepping_runs")})
         chk.violations += prev.get("violations", 0)
+    if prev and which == "C19":
+        chk.set("module_and_set_ncomp_part", {k: v for k, v in prev["coverage"].items() if k not in ("samples",)})
+        chk.cov["rule"] = prev["coverage"].get("rule", "") + " || network histories (connect, recordings / clamps / trainables of synapses made and deleted through type, k-th-edge and node-selection views while voltage recordings exist): " + chk.cov["rule"]
+        chk.violations += prev.get("violations", 0)
+        for fid, cnt in (prev["coverage"].get("known_findings_hit") or {}).items():
+            chk.known[fid] = chk.known.get(fid, 0) + cnt
     if prev and which == "C10":
         chk.set("module_part", {k: v for k, v in prev["coverage"].items() if k not in ("samples",)})
         chk.cov["rule"] = prev["coverage"].get("rule", "") + " || synaptic parameters: " + chk.cov["rule"]
